@@ -63,6 +63,11 @@ CLAIMED = {
    technique="deterministic simulation: configuration differential; selector under a simulated clock with clock faults",
    note="Trusted base: the invariant checker in sim/e1/c19.go, the simulated Clock. The BTreeV2 adapter in the selector part is a stub (file size only).",
    ref="DESIGN.md section 4 C19"),
+ "C18": dict(level="exploration", engine="E4-schedule-simulator",
+   text="Each simulated run is one testing/synctest bubble inside a -race binary: caller tasks and the library's own ticker/monitor goroutines are serialised by seeded fake-clock delays at yield points (operation boundaries, every I/O call, H2 sites inside the rebalancers and the selector, timer firings) - no happens-before edge is added, so the race detector reports every unsynchronised conflicting access that occurs in the explored schedule. Oracles: no race report with a library frame (incl. sync-primitive misuse annotations), no panic, every Stop returns within the step budget (bounded liveness), no library goroutine alive after the last Stop, independent handles give the sequential results. Failing schedules are minimised over the explicit trace (scripts and delay lists) and replayed twice in fresh processes.",
+   technique="deterministic simulation: seeded fake-time scheduler inside testing/synctest under the race detector",
+   note="Trusted base: Go's race detector and testing/synctest (go1.26.8), the scheduler in sim/e4/sched.go. Interleavings at the granularity of yield points, I/O calls and timer firings. In the smart-rebalancer workload background goroutines do not sleep at yield points (a caller blocked on the lifecycle mutex is not durably blocked in synctest), so interleavings inside the monitor's evaluation are explored only through timer placement.",
+   ref="DESIGN.md section 4 C18"),
  "C01": dict(level="exploration", engine="E1-history-simulator",
    text="Seeded deterministic simulation of write/restart/read histories (all dataset types x ranks x layouts x superblock versions x data classes) against an executable reference model; every failing run is minimised and replayed twice in fresh processes before it is reported.",
    technique="deterministic simulation: seeded write/restart/read histories vs reference model over a simulated disk",
@@ -89,7 +94,7 @@ def main():
             "quick_cmd": f"./check.sh {pid} quick",
             "thorough_cmd": f"./check.sh {pid} thorough",
             "evidence_file": f"/verif/evidence/{pid}.json",
-            "replay_cmd_template": "./bin/vsim replay {path}",
+            "replay_cmd_template": "./replay.sh {path}",
             "engine": c["engine"],
             "level_claimed": {"category": c["level"], "text": c["text"], "design_ref": c["ref"]},
             "level_note": c.get("note", E1_NOTE),
@@ -115,6 +120,8 @@ def main():
              "kind_free_text": "seeded operation histories with restarts through the real public API over the simulated disk, compared with an executable reference model"},
             {"name": "E3-structure-simulator", "path": "/verif/sim/e3", "serves_properties": [p for p in CLAIMED if CLAIMED[p]["engine"].startswith("E3")],
              "kind_free_text": "the writable B-tree v2 and fractal heap (real code) driven through their exported API over the simulated disk, with write-out/load-back restarts and randomised tuning knobs, against map / byte-store models"},
+            {"name": "E4-schedule-simulator", "path": "/verif/sim/e4", "serves_properties": [p for p in CLAIMED if CLAIMED[p]["engine"].startswith("E4")],
+             "kind_free_text": "testing/synctest bubbles in a -race test binary; caller goroutines and the library's background goroutines serialised by seeded fake-clock delays at yield points; race reports, liveness and leak checks"},
             {"name": "E2-fault-simulator", "path": "/verif/sim/e2", "serves_properties": [p for p in CLAIMED if CLAIMED[p]["engine"].startswith("E2")],
              "kind_free_text": "the same workloads and the bundled reference files re-run under an explicit fault plan (failing/torn I/O calls at every step, truncation at every length, altered stored bytes) with a relaxed golden-answer oracle; crash-tolerant worker processes"},
         ],
